@@ -82,7 +82,14 @@ INC_FILES = [
     't/foo/sub/foo/x.lua', 't/foo/fo/x.lua', 't/foo/foobar/x.lua',
     't/foobar/x.lua', 't/fo/x.lua', 't/x.lua', 't/a/x.lua', 't/sub/x.lua', 'x.lua', 'a/x.lua', 'foo/x.lua',
     't/foo/subx/x.lua',
+    # siblings whose names differ from the permitted directories only in letter case (the file system is case-sensitive)
+    't/FOO/x.lua', 't/Foo/x.lua', 't/foo/SUB/x.lua', 'home/.lexaloffle/pico-8/CARTS/x.lua', 'home/.lexaloffle/pico-8/Carts/x.lua',
 ]
+# include cases that always run (the sampled product below may miss them): case-variant siblings
+INC_MUST = [('foo', 'abs', 't', '../FOO/x.lua'), ('foo', 'abs', 't', '../Foo/x.lua'), ('foo', 'rel', 't/foo', '../FOO/x.lua'),
+            ('foo', 'abs', 't', 'S/t/FOO/x.lua'), ('foosub', 'abs', 't', '../SUB/x.lua'), ('foosub', 'rel', 't', '../../FOO/x.lua'),
+            ('carts', 'abs', 't', '../CARTS/x.lua'), ('carts', 'rel', 'home', '../Carts/x.lua'),
+            ('cartssub', 'abs', 't', '../../CARTS/x.lua'), ('cartsX', 'abs', 't', '../CARTS/x.lua')]
 CARTS = {
     'foo': 't/foo/c.p8', 'foosub': 't/foo/sub/c.p8',
     'carts': 'home/.lexaloffle/pico-8/carts/c.p8', 'cartssub': 'home/.lexaloffle/pico-8/carts/sub/c.p8',
@@ -97,6 +104,8 @@ REQ_FILES = [
     # canaries: outside every root for the default / relative settings
     'w/init.lua', 'w/a.lua', 'w/ab.lua', 'w/projx/a.lua', 'w/projx/init.lua', 'w/sub/a.lua', 'init.lua', 'a.lua', 'lib/a.lua',
     'w/proj.lua', 'w/a/init.lua',
+    # canaries in the home directory (HOME = <S>/home during the runs): a require string starting with ~ must not reach them
+    'home/a.lua', 'home/init.lua', 'home/secret', 'home/w/a.lua',
 ]
 NESTED = {'w/proj/sub/ab.lua': b'require("a")\nv_nested=1\n'}
 REQ_CWDS = ['w/proj', 'w', '']
@@ -187,7 +196,9 @@ META_REQS = ['ok;<S>/w/a.lua', 'ok;<S>/w/a', ';<S>/w/a.lua', ';<S>/w/a', '?;<S>/
              'ok;<S>/w/projx/a', 'ok;<S>/w/projx/init.lua', 'lib/a;<S>/a', 'a;<S>/lib/a', 'ok;<S>/a.lua', 'ok;<S>/init',
              'a;<S>/w/a.lua', 'sub/a;<S>/w/sub/a', 'ok;<S>/w/?', '?;<S>/w/?', 'ok;<S>/w/a;b', 'ok;;<S>/w/a.lua',
              'ok;../a', 'ok;../a.lua', 'ok;../../a', ';../init', '?;../a', 'ok;../projx/a', 'ok;..', 'a;..;b',
-             ';', '?', '??', '?;?', 'a;b', 'a;', ';a', 'a?', '?a', 'a?b;c', 'ok;/init', 'ok;/']
+             ';', '?', '??', '?;?', 'a;b', 'a;', ';a', 'a?', '?a', 'a?b;c', 'ok;/init', 'ok;/',
+             # home-directory forms: the require string is a package name, never a shell-style path
+             '~/a', '~/a.lua', '~/init', '~', '~/', '~/x', '~//a', 'ok;~/a', '~/w/a', '~/secret', '~/.lexaloffle/pico-8/x']
 
 
 def generate(tier, rng):
@@ -217,6 +228,8 @@ def generate(tier, rng):
     n_inc = 1500 if quick else 60000
     allinc = [(c, i) for c in combos for i in incs]
     sample = allinc if len(allinc) <= n_inc else rng.sample(allinc, n_inc)
+    for cart, mode, cwd, inc in INC_MUST:
+        yield {'kind': 'include', 'cart': cart, 'mode': mode, 'cwd': cwd, 'inc': inc}
     for (cart, mode, cwd, prefix), inc in sample:
         yield {'kind': 'include', 'cart': cart, 'mode': mode, 'cwd': cwd, 'inc': prefix + inc}
     # require
